@@ -194,9 +194,16 @@ func normalizeStatement(
 	}
 	statement := stmtSkeleton()
 
+	// childIndex returns a fresh slice: appending to parentIndex directly would
+	// let sibling statements share (and overwrite) one backing array.
+	childIndex := func(parentIndex []int, i int) []int {
+		index := make([]int, 0, len(parentIndex)+1)
+		return append(append(index, parentIndex...), i)
+	}
+
 	normalizeChildren := func(children []*sysl.Statement, parentIndex []int) error {
 		for i, child := range children {
-			err := normalizeStatement(ctx, s, app, ep, child, append(parentIndex, i))
+			err := normalizeStatement(ctx, s, app, ep, child, childIndex(parentIndex, i))
 			if err != nil {
 				return err
 			}
@@ -259,7 +266,7 @@ func normalizeStatement(
 		// and recurse on their children.
 		for i, choice := range stmt.GetAlt().Choice {
 			statement = stmtSkeleton()
-			statement.StmtIndex = append(statement.StmtIndex, i)
+			statement.StmtIndex = childIndex(statement.StmtIndex, i)
 			statement.StmtAlt = tuple{"choice": choice.Cond}
 			if err := normalizeChildren(choice.Stmt, statement.StmtIndex); err != nil {
 				return err
